@@ -27,7 +27,7 @@ CLAIMS = {
  "C17": ("model_checking", "5/C17", "Every (state, iterator kind, word, forget) edge of the iterator model is executed on the real cache as its own segment followed by continued use and drop; TLC validates the declarative ForgetBad predicate (valid cache, nothing yielded still inside, conservation of objects, no registry anomaly) and all later steps."),
  "C15": ("model_checking", "5/C15", "C15_Step for every subset of present keys in every model state; replay compares predicate call sequence (with object identity), survivors, drops and sizes."),
  "C18": ("other", "5/C18", "The compiler is the decision procedure. spec/Borrow.tla supplies the model of what must be accepted and rejected (loan discipline: shared loans admit only shared calls, exclusive loans admit nothing; auto traits: conjunction over K, V, S) and TLC enumerates all 498 acquire/call/use programs and 128 witness obligations plus generic ones; generated Rust functions are compiled with cargo check and every verdict (incl. the error code class) is compared with the prediction. The API table is cross-checked against the pub fn signatures so that a new lending API cannot go unprobed."),
- "C19": ("model_checking", "5/C19", "Plus a read-only guard: every shared-reference operation of the tour is re-executed with the table allocation and the seal mapped PROT_READ (a write, even one that is undone, is a SIGSEGV); clone is also checked when it unwinds. C19_Step (read operations are stuttering steps) model-checked; replay/trace additionally require the structural fingerprint (node addresses, links, recorded sizes, seal, table) to be identical before and after every shared-reference call."),
+ "C19": ("model_checking", "5/C19", "Plus a read-only guard: every shared-reference operation of the tour is re-executed with the table allocation and the seal mapped PROT_READ (a write, even one that is undone, is a SIGSEGV), including clone / clone_from on the two-cache tour with a faithful key type and with one whose Clone does not preserve equality (the clone's allocations come from a private arena); clone is also checked when it unwinds. C19_Step (read operations are stuttering steps) model-checked; replay/trace additionally require the structural fingerprint (node addresses, links, recorded sizes, seal, table) to be identical before and after every shared-reference call."),
  "C20": ("model_checking", "5/C20", "Hash-count upper bound HashBound model-checked against the constructive bound; replay/trace compare the measured number of Hash::hash calls of every operation with the bound (upper bound only)."),
 }
 
